@@ -19,6 +19,11 @@ const TVFS_FOLDER_SIZE_MASK: u32 = 0x7FFF_FFFF;
 const NODE_VALUE_MARKER: u8 = 0xFF;
 /// Path separator byte.
 const PATH_SEPARATOR: u8 = 0x00;
+
+/// Deepest nesting of folder nodes the parser follows. Real manifests stay
+/// below a few dozen levels (one per shared path prefix); 256 levels fit the
+/// 2 MiB stack of a spawned thread even in unoptimised builds.
+const MAX_FOLDER_DEPTH: usize = 256;
 /// Longest name fragment: its length byte must differ from `NODE_VALUE_MARKER`.
 const MAX_NAME_FRAGMENT: usize = 254;
 
@@ -72,6 +77,7 @@ impl PathTable {
             &mut String::new(),
             &mut files,
             &mut root,
+            0,
         )?;
 
         Ok(Self {
@@ -114,7 +120,17 @@ fn parse_directory(
     current_path: &mut String,
     files: &mut Vec<PathFileEntry>,
     tree_node: &mut PathTreeNode,
+    depth: usize,
 ) -> TvfsResult<()> {
+    // Folder nodes nest by recursion; a folder costs five bytes, so without a
+    // limit a table of a few hundred kilobytes exhausts the stack
+    if depth > MAX_FOLDER_DEPTH {
+        return Err(TvfsError::InvalidPathNode(
+            start,
+            format!("folders nested deeper than {MAX_FOLDER_DEPTH} levels"),
+        ));
+    }
+
     let mut pos = start;
 
     while pos < end {
@@ -232,6 +248,7 @@ fn parse_directory(
                 &mut full_path.clone(),
                 files,
                 &mut child_tree,
+                depth + 1,
             )?;
 
             tree_node.children.push(child_tree);
@@ -321,5 +338,42 @@ fn write_entry_name(out: &mut Vec<u8>, name: &str) {
             out.push(chunk.len() as u8);
             out.extend_from_slice(chunk);
         }
+    }
+}
+
+#[cfg(test)]
+#[allow(clippy::expect_used)]
+mod tests {
+    use super::*;
+
+    /// `depth` folder nodes with empty names around one file node `a`.
+    fn nested(depth: usize) -> Vec<u8> {
+        let file = [0x01, b'a', NODE_VALUE_MARKER, 0, 0, 0, 7];
+        let mut sizes = Vec::with_capacity(depth);
+        let mut children = file.len() as u32;
+        for _ in 0..depth {
+            sizes.push(children + 4);
+            children += 5;
+        }
+        let mut out = Vec::new();
+        for size in sizes.iter().rev() {
+            out.push(NODE_VALUE_MARKER);
+            out.extend_from_slice(&(TVFS_FOLDER_NODE | size).to_be_bytes());
+        }
+        out.extend_from_slice(&file);
+        out
+    }
+
+    #[test]
+    fn test_nested_folders_parse() {
+        let table = PathTable::parse(&nested(200)).expect("Should parse");
+        assert_eq!(table.resolve_path("a"), Some(7));
+    }
+
+    #[test]
+    fn test_folder_nesting_is_bounded() {
+        // used to recurse once per folder node until the stack was exhausted
+        let result = PathTable::parse(&nested(200_000));
+        assert!(matches!(result, Err(TvfsError::InvalidPathNode(..))));
     }
 }
